@@ -26,3 +26,16 @@ Theorem C13_no_overflow_is_exact : forall lut ws ws' ds zreg zreg' r,
   exists r', wave_eval lut ws' ds zreg' = Some r' /\ upto_end (r_z r') = upto_end (r_z r) /\
              r_ovf r' = 0 /\ r_rise r' = r_rise r /\ r_fall r' = r_fall r.
 Proof. exact KV.Proofs.WaveEquiv.no_ovf_exact. Qed.
+
+(* capture: initial value, final value, earliest arrival, latest stabilisation, value at T, overflow indicator *)
+From KV Require Import Model.CaptureSpec.
+From KV Require Proofs.CaptureProofs.
+Theorem C13_capture_summary : forall w T, wf_wave w ->
+  let '(ini, a) := capture w T in
+  ini = init_val w /\ k_fin a = final_val w /\ k_eat a = earliest w /\ k_lst a = latest w /\
+  k_val a = value_before w T /\ (k_ovl a = true <-> terminator w = MaxOvl).
+Proof. exact KV.Proofs.CaptureProofs.capture_summary. Qed.
+(* for increasing waveforms the entries before T are a prefix: the captured value is the value just before T *)
+Theorem C13_value_before_prefix : forall w T, wf_wave w -> strictly_increasing w ->
+  exists n, n <= ntrans w /\ filter (fun t => tltb t T) (body w) = firstn n (body w).
+Proof. exact KV.Proofs.CaptureProofs.value_before_prefix. Qed.
